@@ -80,12 +80,15 @@ package snowflake_server
 //@   loop 1 invariant true
 //
 //@ func (l *SnowflakeListener) acceptStreams(conn *kcp.UDPSession) (err error)
-//@   props C18
+//@   props C18, C05
 //@   requires l != nil && conn != nil
 //@   loop 1 invariant true
 //@   at call queueConn assert {address-is-looked-up-address} unbox(arg1, *SnowflakeClientConn).address == addr
 //@   at call queueConn assert {looked-up-once-when-session-established} calls(Get) == 1
 //@   at call queueConn assert {remote-addr-never-nil} unbox(arg1, *SnowflakeClientConn).address != nil
+//   (C05) a session must survive a gap without carrier for as long as the server keeps the client's queue (one minute,
+//   literal here): the only timer that ends a session on the server side is the smux keep-alive timeout.
+//@   at call Server assert {session-outlives-the-one-minute-retention} arg1.KeepAliveTimeout >= 60000000000 && arg1 == smuxConfig
 //
 // The carrier handler registers this carrier's ClientID with this request's sanitised client_ip.
 //@ func turbotunnelMode(conn net.Conn, addr net.Addr, pconn *turbotunnel.QueuePacketConn) (err error)
